@@ -57,7 +57,7 @@ PROPS = {
         "design_ref": "DESIGN.md section 7, C01",
     },
 }
-STATIC = set()
+STATIC = {'C15', 'C16', 'C19'}
 
 # ------------------------------------------------------------------------------------------ C02
 def gen_c02(tier, seed):
